@@ -109,21 +109,7 @@ def check_dispatch(idx: Index, rep: Report):
     if adv is None:
         raise AnalysisError("mapping_transform.available_mappings is not a literal set")
     f = idx.function(f"{MT}::fermion_to_qubit_mapping")
-    binds = {}
-    for n in ast.walk(f.node):
-        if isinstance(n, ast.If) and isinstance(n.test, ast.Compare) and isinstance(n.test.ops[0], ast.Eq) and isinstance(n.test.comparators[0], ast.Constant) \
-                and norm(n.test.left) in ("mapping.upper()", "mapping"):
-            name = n.test.comparators[0].value
-            bound = any(isinstance(s, ast.Assign) and norm(s.targets[0]) == "qubit_operator" for s in n.body)
-            binds[name] = (bound, norm(n.test.left), n)
-    for k in sorted(adv):
-        ok = k in binds and binds[k][0]
-        rep.decide(ok, rule, f, binds[k][2] if k in binds else f.node, text=f"mapping {k} dispatched and bound", what="every advertised mapping produces a qubit operator",
-                   reason=f"{k} is advertised but no branch binds the result: UnboundLocalError instead of an operator")
-    for k, (b, subj, node) in sorted(binds.items()):
-        rep.decide(subj == "mapping.upper()", rule, f, node, text=f"comparison for {k} uses mapping.upper()", what="mapping names are case-insensitive", reason=f"compares {subj}")
-        if k not in adv:
-            rep.info(rule, f, node, text=f"branch {k} not advertised", reason="unreachable behind the membership guard")
+    # that every advertised name (in any letter case) reaches its encoder, binds a result and hands back a copy is decided by the fold in check_single_reordering
     from ..rules.guards import decide_refusals
     from ..consteval import Opaque
     base = {"fermion_operator": Opaque("fermion_operator"), "n_spinorbitals": 4, "n_electrons": 2, "up_then_down": False, "spin": 0}
@@ -135,20 +121,6 @@ def check_dispatch(idx: Index, rep: Report):
     cases.append(("mapping '' (empty)", dict(base, mapping=""), True))
     decide_refusals(idx, rep, rule, f, cases, what="every advertised mapping name is accepted in any letter case, anything else is an error",
                     may_skip=("mapping.upper in",))     # a guard on the bound method object (never true); reported below for information
-    # register size provenance
-    want = {"bravyi_kitaev": {"n_qubits": "n_spinorbitals"}, "jkmn": {"n_qubits": "n_spinorbitals"},
-            "symmetry_conserving_bravyi_kitaev": {"fermion_operator": "fermion_operator", "n_spinorbitals": "n_spinorbitals", "n_electrons": "n_electrons",
-                                                  "up_then_down": "up_then_down", "spin": "spin"}}
-    for c in own_nodes(f.node):
-        if isinstance(c, ast.Call) and isinstance(c.func, ast.Name) and c.func.id in want:
-            kws = {k.arg: norm(k.value) for k in c.keywords}
-            rep.decide(kws == want[c.func.id] and (c.func.id == "symmetry_conserving_bravyi_kitaev" or norm(c.args[0]) == "fermion_operator"), rule, f, c,
-                       text=f"{c.func.id}({', '.join(f'{k}={v}' for k, v in kws.items())})",
-                       what="each encoder receives the caller's register size / sector data, so operators that do not touch the highest orbital are encoded on the full register",
-                       reason=f"called with {kws}")
-    rets = [n for n in own_nodes(f.node) if isinstance(n, ast.Assign) and norm(n.targets[0]) == "converted_qubit_op.terms"]
-    rep.decide(bool(rets) and norm(rets[0].value) == "qubit_operator.terms.copy()", rule, f, rets[0] if rets else f.node, text="result re-wrapped with a copy of the terms",
-               what="the returned operator does not alias the encoder's internal dictionary", reason="terms not copied")
     # scBK needs the electron number
     decide_refusals(idx, rep, rule, f, [("scBK without n_electrons", dict(base, mapping="scbk", n_electrons=None), True),
                                          ("scBK with zero electrons (a valid sector)", dict(base, mapping="scbk", n_electrons=0), False),
@@ -186,7 +158,7 @@ def check_single_reordering(idx: Index, rep: Report):
 
         def __init__(self, tag, src, **kw):
             self.tag, self.src, self.kw = tag, src, kw
-            self.terms = {}
+            self.terms = {("encoded-by", tag): 1.0}
 
     class _QOut:
         _sa_model = True
@@ -214,7 +186,7 @@ def check_single_reordering(idx: Index, rep: Report):
             last.clear()
             fo = make_folder(idx, MT, ctors=ctors, isinstance_hook=hook)
             try:
-                fo.run_function(f.node, {"fermion_operator": F, "mapping": mp, "n_spinorbitals": 4, "n_electrons": 2, "up_then_down": utd, "spin": 0})
+                out = fo.run_function(f.node, {"fermion_operator": F, "mapping": mp, "n_spinorbitals": 4, "n_electrons": 2, "up_then_down": utd, "spin": 0})
             except Undecidable as e:
                 raise AnalysisError(f"fermion_to_qubit_mapping not foldable for {mp}, up_then_down={utd}: {e}")
             except Raised as e:
@@ -235,6 +207,13 @@ def check_single_reordering(idx: Index, rep: Report):
                 want_txt = "the operator re-indexed exactly once iff the all-up-then-all-down ordering is requested"
             rep.decide(ok, rule, f, f.node, text=f"{mp}, up_then_down={utd}: operator reaching the encoder",
                        what="each encoder receives " + want_txt, reason=f"the {mp} encoder receives {got!r}")
+            # what comes back: a new operator holding a copy of the encoder's terms; and what the encoder was told about the register and the sector
+            sizes = {"BK": {"n_qubits": 4}, "JKMN": {"n_qubits": 4}, "SCBK": {"n_spinorbitals": 4, "n_electrons": 2, "spin": 0}}.get(mp0, {})
+            okr = p is not None and isinstance(out, _QOut) and out.terms == p.terms and out.terms is not p.terms and all(p.kw.get(k_) == v_ for k_, v_ in sizes.items())
+            rep.decide(okr, "K3.mapping-dispatch", f, f.node, text=f"{mp}, up_then_down={utd}: result and register data",
+                       what="the encoder is told the caller's register size (and sector), and its result comes back as a new operator with a copy of the terms",
+                       reason=f"returns {type(out).__name__} with terms {getattr(out, 'terms', None)!r:.60} (encoder's own dictionary: {getattr(out, 'terms', None) is getattr(p, 'terms', 0)}); "
+                              f"encoder keywords {getattr(p, 'kw', None)}")
     s = idx.function(f"{SCBK}::symmetry_conserving_bravyi_kitaev")
     ro = [n for n in own_nodes(s.node) if isinstance(n, ast.If) and norm(n.test) == "not up_then_down" and "reorder(fermion_operator, up_then_down_order" in full(n)]
     rep.decide(bool(ro), rule, s, ro[0] if ro else s.node, text="scBK re-orders only when the input is still interleaved",
